@@ -1163,6 +1163,37 @@ pub fn run(_env: &Env, run: &Run) -> (Stats, Coverage) {
     let pn = run.tier.pick(5u32, 7u32);
     let pconfs = prop_configs(pn, 0x0370);
     let npconf = pconfs.len();
+    // long runs: a maximal run of exactly L consecutive code points (one line, or two adjacent
+    // lines), then after a gap one more member of the same set and a member of the other set, for
+    // L around every power of two up to 2^16: whatever block size a set-to-ranges step works in
+    {
+        let scratch3 = Scratch::new("pfl");
+        let dir = scratch3.dir.join("w");
+        let _ = std::fs::create_dir_all(dir.join("extracted"));
+        let base = 0x20000u32;
+        let mut n = 0u64;
+        for k in 8..=16u32 {
+            for l in [(1u32 << k) - 1, 1 << k, (1 << k) + 1, 3 << (k - 1)] {
+                for split in [false, true] {
+                    let mut lines: Vec<(u32, u32, u8)> = Vec::new();
+                    if split {
+                        lines.push((base, base + l / 2 - 1, 1));
+                        lines.push((base + l / 2, base + l - 1, 1));
+                    } else {
+                        lines.push((base, base + l - 1, 1));
+                    }
+                    lines.push((base + l + 5, base + l + 5, 1));
+                    lines.push((base + l + 9, base + l + 10, 2));
+                    st.states += 1;
+                    n += 1;
+                    check_prop_config(&dir, FileKind::Scripts, &lines, base, base + l + 12, &mut st);
+                    check_prop_config(&dir, FileKind::ALL[1 + (k as usize + split as usize) % 4], &lines, base, base + l + 12, &mut st);
+                }
+            }
+        }
+        st.add("long_run_property_files", n);
+        let _ = std::fs::remove_dir_all(&dir);
+    }
     let scratch2 = Scratch::new("pf");
     let shards: Vec<Stats> = pconfs
         .par_chunks(128)
